@@ -425,9 +425,9 @@ func exprTicks(ticks int64, tr int) ttTime {
 type ttCue struct {
 	Begin, End ttTime
 	ID         string
-	V          tvItem    // times unused
+	V          tvItem   // times unused
 	Merge      [][]bool // Merge[j][0]: line j's first run continues the previous line's last run inside one element
-	Anon       [][]bool  // run rendered as bare character data
+	Anon       [][]bool // run rendered as bare character data
 }
 type ttDoc struct {
 	V            tvDoc
